@@ -200,6 +200,10 @@ def run_inprocess(out, pid, n, harness, findings, local_only=False):
         pub = "c:A:w:write:%s:%s\tr:A:w:write:r1:%s\tr:B:w:load:r1\tc:B:w:load:%s" % (ds, vlib.hx(small), ds, ds)
         lines.insert(0, "case\t-\tc:A:l:write:%s:%s\treset:A\t%s" % (ds, vlib.hx(small), pub))
         lines.insert(0, "case\t-\tc:A:l:write:%s:%s\treset:A\tc:A:w:ex:%s\t%s" % (ds, vlib.hx(small), ds, pub))
+        # ... or READ through the wrapper before the write (a cached target restored from the local cache, then another target
+        # producing the same bytes): a successful read proves the blob is in the LOCAL store only
+        lines.insert(0, "case\t-\tc:A:l:write:%s:%s\treset:A\tc:A:w:load:%s\t%s" % (ds, vlib.hx(small), ds, pub))
+        lines.insert(0, "case\t-\tc:A:l:write:%s:%s\treset:A\tc:A:w:load:%s\tc:A:w:ex:%s\tc:A:w:load:%s\t%s" % (ds, vlib.hx(small), ds, ds, ds, pub))
         lines.insert(0, "case\tf\tc:A:w:write:%s:%s\treset:A\t%s" % (ds, vlib.hx(small), pub))
         lines.insert(0, "case\te\tc:A:w:write:%s:%s\t%s" % (ds, vlib.hx(small), pub))
         lines.insert(0, "case\t-\tc:A:w:write:%s:%s\tb:B:w:del:cas:%s\t%s" % (ds, vlib.hx(small), ds, pub))
